@@ -34,6 +34,10 @@ add("C10", "model_checking", "RetryGraph.tla models the frontier walk of setupRe
     "the real NewExecutionGraphForRetry is run on every DAG x vector (2-3 steps quick, 4 thorough) and real retry runs (first run stopped/failed/killed-at-move, then retried through the gates) are validated by SchedObserve's C10 clauses",
     SCHED_NOTE, "TLA+ model of the retry walk vs declarative closure (TLC) + exhaustive records and gate-driven retry runs of the real scheduler judged by TLC", "sched", "5/C10")
 
+add("C06", "model_checking", "History.tla specifies the store at call granularity with the three queries as operators; TLC checks frame conditions, rename-carries-all and retention-only-old as action properties of the design (MCHistory); "
+    "operation sequences generated by TLC simulation of that model and by a seeded generator are executed on the real jsondb with 8 awkward name tables and close start stamps, and after EVERY operation every query answer for every DAG is compared by TLC with the model (HistoryTrace)",
+    REC_NOTE + "; status payloads are opaque ids", "TLA+ model of the history store (TLC) + TLC-generated and random operation sequences replayed on the real jsondb, every answer validated against the model by TLC", "hist", "5/C06")
+
 ALL = ["C%02d" % i for i in range(1, 21)]
 for p in ALL:
     if p not in CHECKS:
@@ -58,6 +62,8 @@ def main():
              "kind_free_text": "gate controller + scripted executor around the real scheduler.Schedule/Signal; TLC model checking, behaviour export, trace validation"},
             {"name": "auth", "path": "harness/rig/auth.go + spec/Auth.tla + spec/AuthObserve.tla", "serves_properties": ["C17"],
              "kind_free_text": "request renderer around the real middleware chain (httptest); records judged by TLC"},
+            {"name": "hist", "path": "harness/rig/hist.go + spec/History.tla + spec/MCHistory.tla + spec/HistoryTrace.tla", "serves_properties": ["C06"],
+             "kind_free_text": "operation-sequence driver around the real jsondb store; trace validation by TLC"},
             {"name": "admit", "path": "harness/rig/admit.go + spec/Admission.tla + spec/AdmissionObserve.tla", "serves_properties": ["C14"],
              "kind_free_text": "graph enumerator around scheduler.NewExecutionGraph / agent.Run; records judged by TLC"},
         ],
